@@ -94,18 +94,15 @@ def run(ctx, report: Report) -> None:
 
     # ---- R3 ----------------------------------------------------------------------------------------------
     r3 = report.rule('C13-R3', 'the walk stays inside the element\'s own document', floor=2)
-    for c in [n for n in walk_no_nested(fn) if isinstance(n, ast.Call)]:
-        nm = call_name(c).split('.')[-1]
-        if nm in ('get_parent', 'get_tag_children', 'get_children', 'get_contents', 'get_tag_descendants', 'get_descendants'):
-            kw = [k for k in c.keywords if k.arg == 'no_iframe']
-            val = unparse(kw[0].value) if kw else None
-            ok = val == 'self.is_html'
-            r3.instance({'call': unparse(c)[:70], 'no_iframe': val}, key=unparse(c))
-            r3.obligation(ok)
-            if not ok:
-                r3.violation(f'match_lang {nm} no_iframe={val}', mmod.where(c),
-                             f'match_lang calls {unparse(c)[:60]} with no_iframe={val}; it must be self.is_html so that the '
-                             f'language of an HTML document never comes from outside an iframe boundary (and XML is unaffected)')
+    from .sem import iframe_policy
+    from ..interp import Obj
+    from ..tables import el_obj
+    iframe_policy(ctx, r3, 'css_match.CSSMatch.match_lang',
+                  lambda: [el_obj('e'), (Obj(_name='SelectorLang', languages=('en',), __iter__=['en'], __len__=1),)],
+                  lambda html, restrict: html,
+                  'the language of an element of an HTML document never comes from outside an iframe boundary (XML has no such boundary)',
+                  accessors=('get_parent', 'get_tag_children', 'get_children', 'get_contents', 'get_tag_descendants', 'get_descendants'),
+                  self_fields={'cached_meta_lang': [], 'root': el_obj('html'), 'has_html_namespace': False}, first_only=False)
 
     # ---- R4 ----------------------------------------------------------------------------------------------
     r4 = report.rule('C13-R4', 'range list tokenised and decoded like its sibling', floor=2)
@@ -151,6 +148,12 @@ def run(ctx, report: Report) -> None:
                      f'the ancestor walk inspects the attributes of `{node_var}` but never evaluates has_html_ns({node_var}) inside '
                      f'the loop: the choice between lang and xml:lang is made by another element when the ancestor chain '
                      f'crosses namespaces (SVG/MathML inside HTML)')
+
+    # ---- R6 ----------------------------------------------------------------------------------------------
+    r6 = report.rule('C13-R6', 'language of an element: nearest lang attribute, else the content-language pragma (decision table)', floor=8)
+    from .sem import lang_table
+    lang_table(ctx, r6)
+
 
 
 def meta_memo_rule(ctx, r2):
